@@ -93,6 +93,17 @@ func badDefs() []badDef {
 	// 8. duplicate ids
 	out = append(out, badDef{"duplicate-id", []reflect.StructField{sfield(0, rtI32, `frugal:"7,default,i32"`), sfield(1, rtStr, `frugal:"7,default,string"`)}})
 	out = append(out, badDef{"duplicate-id-frugal-thrift", []reflect.StructField{sfield(0, rtI32, `frugal:"7,default,i32"`), sfield(1, rtStr, `thrift:"x,7,default,string"`)}})
+	for _, pq := range [][2]int{{0, 19}, {3, 17}, {17, 18}, {16, 24}} {
+		var fs []reflect.StructField
+		for i := 0; i < 25; i++ {
+			id := 10 + i
+			if i == pq[1] {
+				id = 10 + pq[0]
+			}
+			fs = append(fs, sfield(i, rtI32, fmt.Sprintf(`frugal:"%d,default,i32"`, id)))
+		}
+		out = append(out, badDef{fmt.Sprintf("duplicate-id-in-wide-struct:%d=%d", pq[0], pq[1]), fs})
+	}
 	// 9. ids
 	for _, id := range []string{"abc", "", "-1", "+1", "0x10", "65536", "1.5", "99999999999999999999"} {
 		one("bad-id:"+id, rtI32, `frugal:"`+id+`,default,i32"`)
@@ -113,7 +124,7 @@ func badDefs() []badDef {
 	return out
 }
 
-var c13Positions = []string{"top", "field*", "field", "list*", "mapval*", "mapkey*", "depth2", "list"}
+var c13Positions = []string{"top", "field*", "field", "list*", "mapval*", "mapkey*", "depth2", "list", "mapkey*+structval", "mapkey*+listval", "mapval*+structkey"}
 
 // c13Place builds the outer type that reaches bad at the given position.
 func c13Place(bad reflect.Type, pos string) reflect.Type {
@@ -133,6 +144,12 @@ func c13Place(bad reflect.Type, pos string) reflect.Type {
 		return reflect.StructOf([]reflect.StructField{x, sfield(1, reflect.MapOf(rtStr, reflect.PtrTo(bad)), `frugal:"2,default,map<string:S>"`)})
 	case "mapkey*":
 		return reflect.StructOf([]reflect.StructField{x, sfield(1, reflect.MapOf(reflect.PtrTo(bad), rtI32), `frugal:"2,default,map<S:i32>"`)})
+	case "mapkey*+structval":
+		return reflect.StructOf([]reflect.StructField{x, sfield(1, reflect.MapOf(reflect.PtrTo(bad), reflect.PtrTo(rtGood)), `frugal:"2,default,map<S:G>"`)})
+	case "mapkey*+listval":
+		return reflect.StructOf([]reflect.StructField{x, sfield(1, reflect.MapOf(reflect.PtrTo(bad), rtI32s), `frugal:"2,default,map<S:list<i32>>"`)})
+	case "mapval*+structkey":
+		return reflect.StructOf([]reflect.StructField{x, sfield(1, reflect.MapOf(reflect.PtrTo(rtGood), reflect.PtrTo(bad)), `frugal:"2,default,map<G:S>"`)})
 	case "depth2":
 		mid := reflect.StructOf([]reflect.StructField{sfield(0, reflect.SliceOf(reflect.MapOf(rtI32, reflect.PtrTo(bad))), `frugal:"1,default,list<map<i32:S>>"`)})
 		return reflect.StructOf([]reflect.StructField{x, sfield(1, reflect.PtrTo(mid), `frugal:"2,optional,S"`)})
@@ -208,7 +225,7 @@ func init() {
 		Assumptions: []string{"go1.23.5 toolchain", "leniencies of the tag parser not named in the statement (trailing tokens, substring keywords, leading-zero ids) are not in the must-reject set", "the reference tag parser must reject every enumerated invalid definition too (else harness error)"},
 		Phases: func(tier universe.Tier) []*harness.Phase {
 			return []*harness.Phase{
-				{Name: "invalid-definitions", Rule: "~75 invalid definitions x 8 positions x 6 entry-point orders; distinct by (definition, position, order)", Body: func(c *explore.C) { c13Defs(c, tier) }},
+				{Name: "invalid-definitions", Rule: "~75 invalid definitions x 11 positions x 6 entry-point orders; distinct by (definition, position, order)", Body: func(c *explore.C) { c13Defs(c, tier) }},
 				{Name: "nested-families", Rule: "64 generated pairs of mutually nested static types x all call sequences of length <=3 over {A,B} x 3 entry points per call; a type must be rejected iff an invalid definition is reachable from it, in every order", Body: func(c *explore.C) { c13Graphs(c, tier) }},
 				{Name: "arguments", Rule: "non-struct arguments x 3 entry points x position in a history with a valid type", Body: func(c *explore.C) { c13Args(c, tier) }},
 			}
